@@ -467,6 +467,7 @@ func verifC26Unchanged(base *veriffs.FS, snap map[string]verifC26Snap) bool {
 // changed or removed; no call ran through a symlinked directory; no call
 // followed a symlink in the final component.
 func VerifHarness_C26_flows() {
+	verifrt.InstallRecHashes() // Blob.Decode asks the object for its hash
 	base := veriffs.New()
 	base.Put("/outside/secret", []byte("S"))
 	base.Put("/wt/.git/config", []byte("C"))
